@@ -385,8 +385,20 @@ pub fn hex(b: &[u8]) -> String {
         while j < b.len() && b[j] == b[i] {
             j += 1;
         }
+        // a 4-byte pattern repeated 16 times or more (a chain of identical header-only packets)
+        let mut k = i;
+        if i + 8 <= b.len() {
+            while k + 8 <= b.len() && b[k..k + 4] == b[k + 4..k + 8] {
+                k += 4;
+            }
+        }
+        let reps = (k - i) / 4 + 1;
         if j - i >= 32 {
             let _ = write!(s, "({:02x}*{})", b[i], j - i);
+        } else if reps >= 16 && i + 4 <= b.len() {
+            let _ = write!(s, "[{:02x}{:02x}{:02x}{:02x}*{}]", b[i], b[i + 1], b[i + 2], b[i + 3], reps);
+            i += 4 * reps;
+            continue;
         } else {
             for x in &b[i..j] {
                 let _ = write!(s, "{x:02x}");
@@ -406,6 +418,22 @@ pub fn unhex(s: &str) -> Result<Vec<u8>, String> {
         u8::from_str_radix(t, 16).map_err(|e| e.to_string())
     };
     while i < s.len() {
+        if s[i] == b'[' {
+            let pat = [byte(s, i + 1)?, byte(s, i + 3)?, byte(s, i + 5)?, byte(s, i + 7)?];
+            if s.get(i + 9) != Some(&b'*') {
+                return Err("bad pattern run in hex string".into());
+            }
+            let close = s[i..].iter().position(|c| *c == b']').ok_or("unterminated pattern run in hex string")? + i;
+            let n: usize = std::str::from_utf8(&s[i + 10..close]).map_err(|e| e.to_string())?.parse().map_err(|_| "bad pattern run length".to_string())?;
+            if n > 1 << 24 {
+                return Err("pattern run too long in hex string".into());
+            }
+            for _ in 0..n {
+                out.extend_from_slice(&pat);
+            }
+            i = close + 1;
+            continue;
+        }
         if s[i] == b'(' {
             let v = byte(s, i + 1)?;
             if s.get(i + 3) != Some(&b'*') {
@@ -424,4 +452,31 @@ pub fn unhex(s: &str) -> Result<Vec<u8>, String> {
         }
     }
     Ok(out)
+}
+
+#[cfg(test)]
+mod tests {
+    use super::{hex, unhex};
+    #[test]
+    fn hex_roundtrip_with_runs() {
+        let mut cases: Vec<Vec<u8>> = vec![vec![], vec![1], vec![0; 31], vec![0; 32], vec![7; 100]];
+        let mut chain = Vec::new();
+        for _ in 0..1000 {
+            chain.extend_from_slice(&[0x80, 0xcb, 0, 0]);
+        }
+        cases.push(chain.clone());
+        let mut mixed = vec![1, 2, 3];
+        mixed.extend_from_slice(&chain);
+        mixed.extend_from_slice(&[9; 40]);
+        mixed.extend_from_slice(&[0x80, 0xcb, 0, 0, 0x80, 0xcb, 0, 0, 5]);
+        cases.push(mixed);
+        let mut x = 12345u32;
+        let rnd: Vec<u8> = (0..5000).map(|_| { x = x.wrapping_mul(1664525).wrapping_add(1013904223); (x >> 24) as u8 % 3 }).collect();
+        cases.push(rnd);
+        for c in cases {
+            let h = hex(&c);
+            assert_eq!(unhex(&h).unwrap(), c, "{h}");
+        }
+        assert!(hex(&chain).len() < 40);
+    }
 }
